@@ -474,6 +474,13 @@ func instrumentFile(label string, p *packages.Package, f *ast.File, fc *fileCtx)
 		return true
 	})
 
+	// atomicCallback: the function being visited is a method that code outside the library
+	// typically calls back while holding a lock of its own (Write of an io.Writer handed to a
+	// log.Logger, Less/Swap of a sort.Interface, String, Error, ...). A preemption inside would
+	// park the task with that foreign lock held and the next task would block on it for real,
+	// so such methods get no yield points; their map ranges and sync calls are rewritten as
+	// everywhere, and the race detector watches their accesses all the same.
+	atomicCallback := false
 	var visit func(n ast.Node) bool
 	visit = func(n ast.Node) bool {
 		if n == nil {
@@ -487,17 +494,18 @@ func instrumentFile(label string, p *packages.Package, f *ast.File, fc *fileCtx)
 			if x.Recv != nil && len(x.Recv.List) > 0 {
 				funcName = recvName(x.Recv.List[0].Type) + "." + x.Name.Name
 			}
-			if x.Body != nil {
+			atomicCallback = isCallbackMethod(info, x)
+			if x.Body != nil && !atomicCallback {
 				id := newSite("enter", fc, label, x.Pos(), funcName, "")
 				fc.insert(x.Body.Lbrace+1, fmt.Sprintf(" __simrt.Enter(%d);", id), 0)
 			}
 		case *ast.ForStmt:
-			if x.Body != nil {
+			if x.Body != nil && !atomicCallback {
 				id := newSite("loop", fc, label, x.Pos(), funcName, "")
 				fc.insert(x.Body.Lbrace+1, fmt.Sprintf(" __simrt.Enter(%d);", id), 3)
 			}
 		case *ast.RangeStmt:
-			if x.Body != nil {
+			if x.Body != nil && !atomicCallback {
 				id := newSite("loop", fc, label, x.Pos(), funcName, "")
 				fc.insert(x.Body.Lbrace+1, fmt.Sprintf(" __simrt.Enter(%d);", id), 3)
 			}
@@ -563,6 +571,51 @@ func instrumentFile(label string, p *packages.Package, f *ast.File, fc *fileCtx)
 			if len(stack) >= 2 {
 				if ce, ok := stack[len(stack)-2].(*ast.CallExpr); ok && ce.Fun == ast.Expr(x) {
 					break
+				}
+			}
+			if sel := info.Selections[x]; sel != nil && sel.Kind() == types.MethodExpr {
+				// (*sync.RWMutex).RLock and the like: a function literal over the shim, the type
+				// spelled as in the source
+				if m, ok := sel.Obj().(*types.Func); ok && m.Pkg() != nil && m.Pkg().Path() == "sync" {
+					rs := strings.TrimPrefix(m.Type().(*types.Signature).Recv().Type().String(), "*")
+					shim, extra, call := "", "", ""
+					switch rs {
+					case "sync.Mutex":
+						shim = map[string]string{"Lock": "MutexLock", "Unlock": "MutexUnlock"}[m.Name()]
+					case "sync.RWMutex":
+						shim = map[string]string{"Lock": "RWLock", "Unlock": "RWUnlock", "RLock": "RWRLock", "RUnlock": "RWRUnlock"}[m.Name()]
+					case "sync.WaitGroup":
+						shim = map[string]string{"Done": "WGDone", "Wait": "WGWait"}[m.Name()]
+						if m.Name() == "Add" {
+							shim, extra, call = "WGAdd", ", __n int", ", __n"
+						}
+					case "sync.Once":
+						if m.Name() == "Do" {
+							shim, extra, call = "OnceDo", ", __f func()", ", __f"
+						}
+					}
+					typ := strings.TrimSpace(fc.text(x.X))
+					for strings.HasPrefix(typ, "(") && strings.HasSuffix(typ, ")") {
+						typ = strings.TrimSpace(typ[1 : len(typ)-1])
+					}
+					if shim != "" && strings.HasPrefix(typ, "*") {
+						sid := newSite("sync", fc, label, x.Pos(), funcName, rs+"."+m.Name()+" (method expression)")
+						fc.replace(x.Pos(), x.End(), fmt.Sprintf("(func(__r %s%s) { __simrt.%s(%d, __r%s) })", typ, extra, shim, sid, call))
+					}
+				}
+			}
+			if sel := info.Selections[x]; sel != nil && sel.Kind() == types.MethodVal {
+				if _, isIface := info.TypeOf(x.X).Underlying().(*types.Interface); isIface {
+					// unlock := l.Unlock with l an interface value (sync.Locker or a library-defined
+					// one): bound to the dynamic shim, the receiver evaluated here
+					switch x.Sel.Name {
+					case "Lock", "Unlock", "RLock", "RUnlock":
+						if mt, ok := sel.Type().(*types.Signature); ok && mt.Params().Len() == 0 && mt.Results().Len() == 0 {
+							sid := newSite("sync", fc, label, x.Pos(), funcName, "interface."+x.Sel.Name+" (method value)")
+							fc.insert(x.Pos(), fmt.Sprintf("__simrt.DynBind(%d, ", sid), 8)
+							fc.replace(x.X.End(), x.End(), fmt.Sprintf(", %q)", x.Sel.Name))
+						}
+					}
 				}
 			}
 			if sel := info.Selections[x]; sel != nil && sel.Kind() == types.MethodVal {
@@ -640,7 +693,9 @@ func instrumentFile(label string, p *packages.Package, f *ast.File, fc *fileCtx)
 			// a yield point of class 1 (and a site in the inventory); which memory the statement
 			// touches is not recorded: ordering is judged by the race detector in lane R
 			_ = isLocal
-			fc.insert(at, fmt.Sprintf("__simrt.Access(%d, %d, %d); ", sid, id, hk), 1)
+			if !atomicCallback {
+				fc.insert(at, fmt.Sprintf("__simrt.Access(%d, %d, %d); ", sid, id, hk), 1)
+			}
 		}
 		return true
 	}
@@ -728,17 +783,13 @@ func isMapLike(t types.Type) bool {
 
 func rewriteMapRange(label string, p *packages.Package, fc *fileCtx, x *ast.RangeStmt, lab *ast.LabeledStmt, fn string) {
 	id := newSite("maprange", fc, label, x.Pos(), fn, fc.text(x.X))
-	mtxt := fc.text(x.X)
-	useTmp := true
-	labeledTmp := false
-	if lab != nil {
-		if isSimpleOperand(x.X) {
-			useTmp = false
-		} else {
-			// { __vm := M; lbl: for ... { } }  - the label stays on the for statement
-			labeledTmp = true
-		}
-	}
+	// for k, v := range M {   ->   for __itN := __simrt.MapIter(N, M); __itN.Next(); { k, v := __itN.K, __itN.V;
+	// The operand stays where it is (it is evaluated once, as the range clause does, and may
+	// carry edits of its own: a closure with loops, a shimmed call, another map range); a label
+	// stays on the for statement, so continue / break / goto with that label keep their meaning.
+	// Next skips keys that have been deleted since the iteration began and reads the value at
+	// that moment, as the language allows.
+	it := fmt.Sprintf("__it%d", id)
 	keyTxt, valTxt := "_", "_"
 	if x.Key != nil {
 		keyTxt = fc.text(x.Key)
@@ -746,39 +797,22 @@ func rewriteMapRange(label string, p *packages.Package, fc *fileCtx, x *ast.Rang
 	if x.Value != nil {
 		valTxt = fc.text(x.Value)
 	}
-	mref := mtxt
+	fc.replace(x.For, x.X.Pos(), fmt.Sprintf("for %s := __simrt.MapIter(%d, ", it, id))
 	var b strings.Builder
-	if labeledTmp {
-		fc.insert(lab.Pos(), "{ __vm := "+mtxt+"; ", 0)
-		mref = "__vm"
-	} else if useTmp {
-		b.WriteString("{ __vm := " + mtxt + "; ")
-		mref = "__vm"
-	}
-	fmt.Fprintf(&b, "for _, __vk := range __simrt.MapOrder(%d, %s) { ", id, mref)
-	needVal := valTxt != "_"
-	if needVal {
-		fmt.Fprintf(&b, "__vv, __vok := %s[__vk]; if !__vok { continue }; ", mref)
-	} else {
-		fmt.Fprintf(&b, "if _, __vok := %s[__vk]; !__vok { continue }; ", mref)
-	}
+	fmt.Fprintf(&b, "); %s.Next(); { ", it)
 	op := ":="
 	if x.Tok == token.ASSIGN {
 		op = "="
 	}
 	switch {
-	case keyTxt != "_" && needVal:
-		fmt.Fprintf(&b, "%s, %s %s __vk, __vv; ", keyTxt, valTxt, op)
+	case keyTxt != "_" && valTxt != "_":
+		fmt.Fprintf(&b, "%s, %s %s %s.K, %s.V; ", keyTxt, valTxt, op, it, it)
 	case keyTxt != "_":
-		fmt.Fprintf(&b, "%s %s __vk; ", keyTxt, op)
-	case needVal:
-		fmt.Fprintf(&b, "%s %s __vv; ", valTxt, op)
+		fmt.Fprintf(&b, "%s %s %s.K; ", keyTxt, op, it)
+	case valTxt != "_":
+		fmt.Fprintf(&b, "%s %s %s.V; ", valTxt, op, it)
 	}
-	// replace `for ... {` (through the body's opening brace)
-	fc.replace(x.For, x.Body.Lbrace+1, b.String())
-	if useTmp {
-		fc.insert(x.Body.Rbrace+1, " }", 5)
-	}
+	fc.replace(x.X.End(), x.Body.Lbrace+1, b.String())
 }
 
 var goInfo *types.Info
@@ -951,10 +985,10 @@ func rewriteGo(label string, fc *fileCtx, g *ast.GoStmt, fn string, isListed boo
 	// constants and nil are not captured - they are repeated inside the closure, where they take
 	// the parameter's type as they did in the original call. Only text between the callee and
 	// the arguments is replaced, so edits inside them stay valid.
+	tupleLen := 0
 	if n == 1 {
 		if tup, ok := goInfo.TypeOf(call.Args[0]).(*types.Tuple); ok && tup.Len() != 1 {
-			fatal = append(fatal, where+": go statement whose arguments are the results of a multi-value call")
-			return
+			tupleLen = tup.Len() // go f(g()) with g returning several values: one temporary per value
 		}
 	}
 	if sel, ok := call.Fun.(*ast.SelectorExpr); ok {
@@ -1002,6 +1036,13 @@ func rewriteGo(label string, fc *fileCtx, g *ast.GoStmt, fn string, isListed boo
 		lhs = append(lhs, "__f")
 	}
 	for i, a := range call.Args {
+		if tupleLen > 0 {
+			for j := 0; j < tupleLen; j++ {
+				lhs = append(lhs, fmt.Sprintf("__a%d", j))
+				inner = append(inner, fmt.Sprintf("__a%d", j))
+			}
+			break
+		}
 		tv := goInfo.Types[a]
 		if tv.IsNil() || tv.Value != nil {
 			lhs = append(lhs, "_")
@@ -1039,6 +1080,18 @@ func rewriteGo(label string, fc *fileCtx, g *ast.GoStmt, fn string, isListed boo
 		fc.replace(a.Pos(), a.End(), "0") // placeholder assigned to the blank identifier
 	}
 	head := "{ " + strings.Join(lhs, ", ") + " := "
+	if tupleLen > 0 {
+		// the values of a multi-value call cannot share an assignment with the callee
+		args := strings.Join(inner, ", ") + " := "
+		if hoistFun {
+			fc.replace(g.Go, call.Fun.Pos(), "{ __f := ")
+			fc.replace(call.Fun.End(), call.Args[0].Pos(), "; "+args)
+		} else {
+			fc.replace(g.Go, call.Args[0].Pos(), "{ "+args)
+		}
+		fc.replace(call.Args[0].End(), call.Rparen+1, "; "+tail)
+		return
+	}
 	if hoistFun {
 		fc.replace(g.Go, call.Fun.Pos(), head)
 		if n > 0 {
@@ -1055,6 +1108,48 @@ func rewriteGo(label string, fc *fileCtx, g *ast.GoStmt, fn string, isListed boo
 		closeFrom = call.Args[n-1].End() // also swallows a trailing comma and the spread dots
 	}
 	fc.replace(closeFrom, call.Rparen+1, "; "+tail)
+}
+
+// isCallbackMethod: a method whose name and shape are those of a standard callback interface.
+func isCallbackMethod(info *types.Info, fd *ast.FuncDecl) bool {
+	if fd.Recv == nil {
+		return false
+	}
+	fn, ok := info.Defs[fd.Name].(*types.Func)
+	if !ok {
+		return false
+	}
+	sig := fn.Type().(*types.Signature)
+	np, nr := sig.Params().Len(), sig.Results().Len()
+	isBytes := func(t types.Type) bool {
+		sl, ok := t.Underlying().(*types.Slice)
+		if !ok {
+			return false
+		}
+		b, ok := sl.Elem().Underlying().(*types.Basic)
+		return ok && b.Kind() == types.Byte
+	}
+	switch fd.Name.Name {
+	case "Write", "Read":
+		return np == 1 && nr == 2 && isBytes(sig.Params().At(0).Type())
+	case "String", "Error", "GoString":
+		return np == 0 && nr == 1
+	case "Len":
+		return np == 0 && nr == 1
+	case "Less":
+		return np == 2 && nr == 1
+	case "Swap":
+		return np == 2 && nr == 0
+	case "Close", "Sync", "Flush":
+		return np == 0 && nr <= 1
+	case "Format":
+		return np == 2 && nr == 0
+	case "MarshalJSON", "MarshalText", "MarshalBinary":
+		return np == 0 && nr == 2
+	case "UnmarshalJSON", "UnmarshalText", "UnmarshalBinary":
+		return np == 1 && nr == 1
+	}
+	return false
 }
 
 func signatureHasChan(sig *types.Signature) bool {
